@@ -7,7 +7,7 @@ import asmk, gen_tables
 
 Z80_VOCAB = ("a b c d e h l i r ixh ixl iyh iyl af bc de hl sp ix iy af' pc nz z nc po pe p m "
              "(hl) (bc) (de) (sp) (c) (ix) (iy) (ix+5) (iy+5) $12 $1234 ($12) ($1234) 0 1 2 7 8 $38").split()
-SM83_VOCAB = ("a b c d e h l af bc de hl sp pc nz z nc (hl) (bc) (de) (c) (hl+) (hl-) sp+5 "
+SM83_VOCAB = ("a b c d e h l af bc de hl sp pc nz z nc (hl) (bc) (de) (c) (hl+) (hl-) sp+5 sp-5 sp-200 "
               "$12 $1234 ($12) ($1234) 0 1 2 7 8 $38").split()
 MOS_SPELL = ["", "a", "x", "y", "#$12", "#$100", "#-1", "$12", "$ff", "$100", "$1234", "$10000", "-1", "$12,x", "$12,y", "$1234,x",
              "$1234,y", "($12,x)", "($12),y", "($1234)", "($12)", "($1234),y", "($100),y", "($12,y)", "($12),x",
@@ -416,4 +416,28 @@ def run_arch(ck, arch, prop):
                              {"correspondence": "Arch.arch_parse (row table) vs ArchAssembler::parse", "arch": arch, "source": allp[i][1],
                               "harness_case": icases[i]}, no_input=True)
     ck.extra["correspondence_mismatches"] = bad
+    # ---------------------------------------------------------------- an instruction's bytes do not depend on what was emitted before it
+    # every accepted form (relative jumps aside) after byte contexts that end like an instruction prefix or like another
+    # instruction: the image is the context's bytes followed by the form's own bytes
+    ctxs = ["@db $76, 0", " halt", " nop\n nop", "@db $cb", "@db $ed", "@db $dd, $fd", "@db $10", "@db $c3, $76, 0"] if arch != "6502" else \
+           ["@db $ea", " nop\n nop", "@db $00, $00", "@db $4c, $ea, $ea", "@db $20"]
+    cres = [AsmResult(r) for r in run_cases(harness, [asm_case(arch, text=c + "\n") for c in ctxs])]
+    cforms = [(f, b) for f, b in asmk.census(arch) if f.split()[0] not in REL_MN]
+    if not thorough:
+        cforms = [fb for fb in cforms if fb[0].split()[0] in ("nop", "halt", "stop", "rst", "ret", "brk", "rts")] + rng.sample(cforms, min(len(cforms), 160))
+    cprogs = [(ci, f, b, "%s\n %s\n" % (c, f)) for ci, c in enumerate(ctxs) for f, b in cforms]
+    cimpl = [AsmResult(r) for r in run_cases(harness, [asm_case(arch, text=t) for _, _, _, t in cprogs])]
+    ck.evaluations += len(cprogs)
+    ck.count("after-context:programs", len(cprogs))
+    nctx = 0
+    for (ci, f, b, t), r in zip(cprogs, cimpl):
+        if not cres[ci].ok:
+            continue
+        want = cres[ci].bytes + (b if isinstance(b, bytes) else bytes.fromhex(b))
+        if not r.ok or r.bytes != want:
+            nctx += 1
+            if nctx <= 2:
+                ck.violation("%s: `%s` after `%s` gives %s, expected the context's bytes followed by the instruction's own: %s" % (
+                    arch, f, ctxs[ci].replace("\n", " / "), r.canon(), want.hex()),
+                    {"mode": "asm", "arch": arch, "source": t, "harness_case": asm_case(arch, text=t), "expected": "OK " + want.hex()})
     return ck
